@@ -295,6 +295,10 @@ class _Eval:
                     tgt = st.value.args[0]
                     old = self.expr(tgt)
                     self.store(tgt, self.mk(("mut", old, "shuffle", (self.expr(recv),), ()), st), st)
+                elif meth in INPLACE_KW and meth not in MUTATORS:
+                    # frame.m(.., inplace=True) re-binds the frame to frame.m(..): one canonical spelling (the returned copy)
+                    old = self.expr(recv)
+                    self.store(recv, self.mk(("call", ("attr", old, meth), args, tuple(kv for kv in kws if kv[0] != "inplace")), st), st, soft=True)
                 else:
                     old = self.expr(recv)
                     self.store(recv, self.mk(("mut", old, meth, args, kws), st), st, soft=True)
@@ -830,6 +834,8 @@ class _Eval:
             if (el[0] == "call" and el[1][0] == "attr" and el[1][2] in ("startswith", "endswith") and len(el[2]) == 1 and not el[3]
                     and not any(x[0] == "elem" and len(x) == 3 and x[2] == c_[4] for x in walk(el[1][1]))):
                 return ("call", ("attr", el[1][1], el[1][2]), (("call", ("global", "tuple"), (("comp", "gen", el[2][0], c_[3], c_[4]),), ()),), ())
+        if ft == ("global", "numpy.flatnonzero") and len(args) == 1 and not kws:
+            return ("sub", ("call", ("global", "numpy.where"), args, ()), ("const", 0))  # positions of the true entries of a vector: one spelling
         if ft[0] == "attr" and ft[2] == "to_numpy" and not args and not kws:
             return ("attr", ft[1], "values")  # frame.to_numpy() and frame.values are the same array: one canonical spelling
         if (kws or args) and self.b.resolver is not None and not any(a_[0] == "starred" for a_ in args):
